@@ -2,8 +2,11 @@ package rules
 
 import (
 	"fmt"
+	"go/constant"
 	"go/token"
 	"go/types"
+	"sort"
+	"strconv"
 	"strings"
 
 	"golang.org/x/tools/go/ssa"
@@ -14,7 +17,7 @@ import (
 func init() {
 	Register(&Prop{
 		ID:   "C16",
-		Expl: "Decides the graph-shaped necessary condition of termination: no state is a sink for a silent peer. For every state of the four tables: (R1) a state whose action may return NoOp (a waiting state) has an exit that does not depend on the peer and survives restarts — it is FailOnrecover, or its action registers a chain watch whose callback events it accepts, or its re-execution by Recover can itself return a non-NoOp event that depends on the block height; in-memory timers alone do not count because a restart drops them; (R2) from every state some terminal state is reachable using only such exits and the events actions return; every event an action can return is accepted by its state (info); (R3) terminal actions return only Event_Done and every SendEvent/Recover call site in the service releases the channel when done; (R4) every state that can be on disk (including the default state, which SendEvent persists before the first transition) is handled by Recover.",
+		Expl: "Decides the graph-shaped necessary condition of termination: no state is a sink for a silent peer. For every state of the four tables: (R1) a state whose action may return NoOp (a waiting state) has an exit that does not depend on the peer and survives restarts — it is FailOnrecover, or its action registers a chain watch whose callback events it accepts, or its re-execution by Recover can itself return a non-NoOp event that depends on the block height; in-memory timers alone do not count because a restart drops them; (R2) from every state some terminal state is reachable using only such exits and the events actions return; every event an action can return is accepted by its state (info); (R3) terminal actions return only Event_Done and every SendEvent/Recover call site in the service releases the channel when done; for a state that waits for the opening transaction's confirmation, per chain: the action (re-run by Recover) fails on a passed height on that chain's side, or every TxWatcher implementation wired in for the chain reads the window parameter it is given; (R4) every state that can be on disk (including the default state, which SendEvent persists before the first transition) is handled by Recover: Recover is evaluated for a record in that state (entry present, no action, its FailOnrecover flag) and must reach the code that finishes the swap before any error return; (R5) every callback that injects an event from outside the machine (confirmation, CSV, payment, timeout) reaches SendEvent on every path on which the swap was found: a skip may depend on the lookup, on an undecodable argument or on the callback's own arguments, and a skip that depends on the current state must let through every state that accepts the event.",
 		NotD: "Fairness of watchers and services, actual time bounds, that failing services eventually succeed.",
 		Run:  runC16,
 	})
@@ -25,6 +28,7 @@ func runC16(c *an.Check) {
 	c.Rule("C16.R2", "from every state a terminal state is reachable over peer-independent exits")
 	c.Rule("C16.R3", "terminal actions return Event_Done; every SendEvent/Recover caller removes the swap when done")
 	c.Rule("C16.R4", "every persistable state is recoverable")
+	c.Rule("C16.R5", "callbacks deliver their event to every state that accepts it")
 	if !needEffects(c, fxWaitConf, fxWaitCsv, fxBlockHeight) {
 		return
 	}
@@ -50,6 +54,11 @@ func runC16(c *an.Check) {
 
 	nWait := 0
 	var actionless []string
+	type c16Rec struct {
+		st            string
+		failOnRecover bool
+	}
+	recs := map[c16Rec][]string{}
 	for _, t := range ts {
 		// exits[s] = peer-independent successor states
 		exits := map[string]map[string]bool{}
@@ -122,6 +131,11 @@ func runC16(c *an.Check) {
 			}
 			c.Decide(len(how) > 0, "C16.R1", t.key(s)+" silent-peer-exit", t.pos(c, s), strings.Join(how, "; "),
 				fmt.Sprintf("waiting state (action %v returns NoOp) has no exit that survives a restart when the peer stays silent%s: after a restart the swap waits here forever and keeps its channel locked", e.ActionNames(), timer))
+			// a wait for the confirmation of the opening transaction must be bounded on
+			// every chain by the action or by every watcher that can serve the chain
+			if ss.HasEffect(fxWaitConf) && !e.FailOnRecover {
+				c16ConfirmationDeadline(c, t, s)
+			}
 		}
 		// R2: terminal reachable over exits
 		for _, s := range t.T.Order {
@@ -167,18 +181,27 @@ func runC16(c *an.Check) {
 		for _, s := range t.T.Order {
 			if len(t.T.States[s].Actions) == 0 {
 				actionless = append(actionless, t.key(s))
+				k := c16Rec{s, t.T.States[s].FailOnRecover}
+				recs[k] = append(recs[k], t.key(s))
 			}
 		}
 	}
 	if len(actionless) > 0 {
 		cons := "(*SwapStateMachine).Recover action-less persisted state"
-		switch c16RecoverHandlesNilAction(w) {
+		verdict, why := 1, ""
+		for k, keys := range recs {
+			v, y := c16RecoverEval(w, ts, k.st, k.failOnRecover)
+			if v < verdict {
+				verdict, why = v, "for a record in "+strings.Join(keys, ", ")+": "+y
+			}
+		}
+		switch verdict {
 		case 1:
-			c.OK("C16.R4", cons, w.Pos(ts[0].T.Pos), "Recover finishes a swap found in a state without action ("+strings.Join(actionless, ", ")+")")
+			c.OK("C16.R4", cons, w.Pos(ts[0].T.Pos), "Recover, evaluated for a record in a state without action ("+strings.Join(actionless, ", ")+"), reaches the code that finishes the swap before any error return")
 		case 0:
-			c.Unknown("C16.R4", cons, w.Pos(ts[0].T.Pos), "cannot interpret what Recover does with a swap found in a state without action ("+strings.Join(actionless, ", ")+"): no test of the current state / its action was recognised, or the branch returns a value of unknown origin")
+			c.Unknown("C16.R4", cons, w.Pos(ts[0].T.Pos), "cannot evaluate Recover "+why)
 		default:
-			c.Bad("C16.R4", cons, w.Pos(ts[0].T.Pos), "SendEvent persists the record before the first transition, so the action-less states "+strings.Join(actionless, ", ")+" can be on disk (crash while the first action runs); Recover returns ErrFsmConfig for them, RecoverSwaps only logs that, and the swap stays in activeSwaps (channel locked, HasActiveSwaps true) after every restart")
+			c.Bad("C16.R4", cons, w.Pos(ts[0].T.Pos), "SendEvent persists the record before the first transition, so the action-less states "+strings.Join(actionless, ", ")+" can be on disk (crash while the first action runs); "+why+"; RecoverSwaps only logs that, and the swap stays in activeSwaps (channel locked, HasActiveSwaps true) after every restart")
 		}
 	}
 	c.AtLeast("C16.R1", "waiting states", nWait, 11)
@@ -295,6 +318,29 @@ func runC16(c *an.Check) {
 		}
 	}
 	c.AtLeast("C16.R3", "SendEvent/Recover call sites (per handler and event) in the service", n, 14)
+
+	// R5: callbacks that inject events from outside the machine deliver them
+	var roots []*ssa.Function
+	seenRoot := map[*ssa.Function]bool{}
+	for _, reg := range []string{"iface:swap.TxWatcher.AddConfirmationCallback", "iface:swap.TxWatcher.AddCsvCallback", "iface:swap.LightningClient.AddPaymentCallback"} {
+		for _, f := range callbackTargets(w, reg) {
+			if !seenRoot[f] && f.Blocks != nil && !isDummy(w, f) {
+				seenRoot[f] = true
+				roots = append(roots, f)
+			}
+		}
+	}
+	for _, f := range c16TimeoutCallbacks(c, srcs) {
+		if !seenRoot[f] {
+			seenRoot[f] = true
+			roots = append(roots, f)
+		}
+	}
+	sort.Slice(roots, func(i, j int) bool { return w.FuncName(roots[i]) < w.FuncName(roots[j]) })
+	for _, root := range roots {
+		c16ReportDelivery(c, "C16.R5", root, c16AnalyseDelivery(c, ts, root, nil, nil, map[*ssa.Function]bool{}))
+	}
+	c.AtLeast("C16.R5", "event-injecting callbacks (confirmation, CSV, payment, timeout)", len(roots), 4)
 }
 
 // c16DoneReleased judges the `done` result (#0) of a SendEvent/Recover-like
@@ -461,8 +507,15 @@ func c16IsEventType(t types.Type) bool {
 // c16HeightDep: see c16DependsOnHeight; taint are the parameters of fn that hold
 // a height-derived value at the call under consideration.
 func c16HeightDep(w *an.World, fn *ssa.Function, ev string, taint map[*ssa.Parameter]bool, depth int, seen map[*ssa.Function]bool) bool {
+	return len(c16HeightPoints(w, fn, ev, taint, depth, seen, nil)) > 0
+}
+
+// c16HeightPoints lists the height-dependent returns of event ev: for each, all
+// the facts that hold when it is reached (those of the callers' frames first).
+func c16HeightPoints(w *an.World, fn *ssa.Function, ev string, taint map[*ssa.Parameter]bool, depth int, seen map[*ssa.Function]bool, outer []an.Fact) [][]an.Fact {
+	var out [][]an.Fact
 	if fn == nil || fn.Blocks == nil || seen[fn] {
-		return false
+		return nil
 	}
 	seen[fn] = true
 	defer delete(seen, fn)
@@ -511,9 +564,13 @@ func c16HeightDep(w *an.World, fn *ssa.Function, ev string, taint map[*ssa.Param
 			if !hit {
 				continue
 			}
-			for _, f := range p.facts(w) {
+			pfacts := p.facts(w)
+			all := append(append([]an.Fact{}, outer...), pfacts...)
+			dep := false
+			for _, f := range pfacts {
 				if strings.Contains(f.String(), fxBlockHeight+"#0") {
-					return true
+					dep = true
+					break
 				}
 				ops := []ssa.Value{f.LV, f.RV}
 				ops = append(ops, f.Args...)
@@ -527,9 +584,13 @@ func c16HeightDep(w *an.World, fn *ssa.Function, ev string, taint map[*ssa.Param
 				}
 				for _, op := range ops {
 					if derives(op) {
-						return true
+						dep = true
 					}
 				}
+			}
+			if dep {
+				out = append(out, all)
+				continue
 			}
 			// the event is the result of an in-module callee: look inside it with
 			// the height-carrying arguments bound to its parameters
@@ -542,127 +603,1140 @@ func c16HeightDep(w *an.World, fn *ssa.Function, ev string, taint map[*ssa.Param
 							t2[g.Params[k]] = true
 						}
 					}
-					if c16HeightDep(w, g, ev, t2, depth+1, seen) {
-						return true
+					out = append(out, c16HeightPoints(w, g, ev, t2, depth+1, seen, all)...)
+				}
+			}
+		}
+	}
+	return out
+}
+
+// ---- partial evaluation under a known current state ---------------------------------------------
+
+const c16CurField = "SwapStateMachine.Current"
+
+// c16Env evaluates branch conditions for a swap whose Current field is known.
+type c16Env struct {
+	w     *an.World
+	cur   string
+	extra func(f an.Fact) int // further known conditions: 1 holds, 0 does not, -1 unknown (may be nil)
+	depth int
+}
+
+func c16B2i(b bool) int {
+	if b {
+		return 1
+	}
+	return 0
+}
+
+// evalFact: does the fact hold for the record? 1 yes, 0 no, -1 unknown.
+func (e *c16Env) evalFact(f an.Fact) int {
+	if f.NonNum && (f.Rel == "==" || f.Rel == "!=") {
+		for _, pr := range [][2]string{{f.L, f.R}, {f.R, f.L}} {
+			if strings.HasSuffix(pr[0], c16CurField) {
+				if cv, err := strconv.Unquote(pr[1]); err == nil {
+					return c16B2i((f.Rel == "==") == (cv == e.cur))
+				}
+			}
+		}
+	}
+	if e.extra != nil {
+		if v := e.extra(f); v >= 0 {
+			return v
+		}
+	}
+	if (f.Rel == "true" || f.Rel == "false") && e.depth < 3 {
+		if call, ok := f.Cond.(*ssa.Call); ok {
+			if g := e.w.Info(call).Static; g != nil && e.w.InModule(g) && g.Blocks != nil {
+				sub := &c16Env{w: e.w, cur: e.cur, extra: e.extra, depth: e.depth + 1}
+				if v := sub.evalBoolFunc(g); v >= 0 {
+					return c16B2i((v == 1) == (f.Rel == "true"))
+				}
+			}
+		}
+	}
+	return -1
+}
+
+// c16Trace is one deterministic walk through a function.
+type c16Trace struct {
+	blocks  []*ssa.BasicBlock
+	decided []an.Fact // the side taken at every evaluated If
+	ret     *ssa.Return
+	stuck   *ssa.If // an If whose condition could not be evaluated
+	stopped bool    // visit asked to stop
+}
+
+// run walks fn from its entry, taking at every If the side the record takes.
+func (e *c16Env) run(fn *ssa.Function, visit func(b *ssa.BasicBlock) bool) c16Trace {
+	var tr c16Trace
+	if fn == nil || len(fn.Blocks) == 0 {
+		return tr
+	}
+	b := fn.Blocks[0]
+	seen := map[*ssa.BasicBlock]bool{}
+	for b != nil && !seen[b] {
+		seen[b] = true
+		tr.blocks = append(tr.blocks, b)
+		if visit != nil && visit(b) {
+			tr.stopped = true
+			return tr
+		}
+		if len(b.Instrs) == 0 {
+			return tr
+		}
+		switch last := b.Instrs[len(b.Instrs)-1].(type) {
+		case *ssa.Return:
+			tr.ret = last
+			return tr
+		case *ssa.If:
+			tf, ff := e.w.FactsOfIf(last)
+			switch e.evalFact(tf) {
+			case 1:
+				tr.decided = append(tr.decided, tf)
+				b = b.Succs[0]
+			case 0:
+				tr.decided = append(tr.decided, ff)
+				b = b.Succs[1]
+			default:
+				tr.stuck = last
+				return tr
+			}
+		case *ssa.Jump:
+			b = b.Succs[0]
+		default:
+			return tr // panic etc.
+		}
+	}
+	return tr
+}
+
+// value of a boolean SSA value at the end of trace tr.
+func (e *c16Env) boolValue(v ssa.Value, tr c16Trace) int {
+	switch x := v.(type) {
+	case *ssa.Const:
+		if x.Value != nil && x.Value.Kind() == constant.Bool {
+			return c16B2i(constant.BoolVal(x.Value))
+		}
+	case *ssa.Phi:
+		idx := -1
+		for i := len(tr.blocks) - 1; i > 0; i-- {
+			if tr.blocks[i] == x.Block() {
+				idx = i
+				break
+			}
+		}
+		if idx <= 0 {
+			return -1
+		}
+		prev := tr.blocks[idx-1]
+		val := -2
+		for i, pb := range x.Block().Preds {
+			if pb != prev {
+				continue
+			}
+			r := e.boolValue(x.Edges[i], tr)
+			if val != -2 && r != val {
+				return -1
+			}
+			val = r
+		}
+		if val == -2 {
+			return -1
+		}
+		return val
+	case *ssa.UnOp:
+		if x.Op == token.NOT {
+			if r := e.boolValue(x.X, tr); r >= 0 {
+				return 1 - r
+			}
+		}
+		// a result spilled into a local because of a defer: the last store on the walk
+		if al, ok := x.X.(*ssa.Alloc); ok && x.Op == token.MUL {
+			for i := len(tr.blocks) - 1; i >= 0; i-- {
+				b := tr.blocks[i]
+				from := len(b.Instrs) - 1
+				if b == x.Block() {
+					from = an.InstrIndex(x) - 1
+				}
+				for k := from; k >= 0; k-- {
+					if st, ok := b.Instrs[k].(*ssa.Store); ok && st.Addr == al {
+						return e.boolValue(st.Val, tr)
 					}
 				}
 			}
 		}
+	case *ssa.BinOp:
+		if x.Op == token.EQL || x.Op == token.NEQ {
+			for _, pr := range [][2]ssa.Value{{x.X, x.Y}, {x.Y, x.X}} {
+				if strings.HasSuffix(e.w.Term(pr[0]), c16CurField) {
+					if cv, ok := an.ConstString(pr[1]); ok {
+						return c16B2i((x.Op == token.EQL) == (cv == e.cur))
+					}
+				}
+			}
+		}
+	case *ssa.Call:
+		if g := e.w.Info(x).Static; g != nil && e.w.InModule(g) && g.Blocks != nil && e.depth < 3 {
+			sub := &c16Env{w: e.w, cur: e.cur, extra: e.extra, depth: e.depth + 1}
+			return sub.evalBoolFunc(g)
+		}
 	}
-	return false
+	return -1
 }
 
-// c16RecoverHandlesNilAction: Recover has a path for an action-less current
-// state that ends in (true, nil) or sends an event, instead of only returning an
-// error: 1 yes, -1 every such path returns an error, 0 cannot interpret.
-func c16RecoverHandlesNilAction(w *an.World) int {
+// evalBoolFunc: the result of the boolean in-module function g for the record.
+func (e *c16Env) evalBoolFunc(g *ssa.Function) int {
+	res := g.Signature.Results()
+	if res.Len() != 1 {
+		return -1
+	}
+	if b, ok := res.At(0).Type().Underlying().(*types.Basic); !ok || b.Kind() != types.Bool {
+		return -1
+	}
+	tr := e.run(g, nil)
+	if tr.ret == nil || len(tr.ret.Results) != 1 {
+		return -1
+	}
+	return e.boolValue(tr.ret.Results[0], tr)
+}
+
+// ---- R4: Recover, partially evaluated for an action-less record ----------------------------------
+
+// c16RecoverEval walks Recover for a record whose Current is st, an entry that
+// the tables contain, without Action and with the given FailOnrecover flag:
+// 1 the walk reaches code that finishes the swap (a terminal state is set, or
+// (true, nil) / the result of SendEvent is returned), -1 it reaches an error
+// return (or (false, nil)) first, 0 a condition on the way cannot be evaluated.
+func c16RecoverEval(w *an.World, ts []*TI, st string, failOnRecover bool) (int, string) {
 	rec := w.Func("swap", "(*SwapStateMachine).Recover")
 	se := w.Func("swap", "(*SwapStateMachine).SendEvent")
 	if rec == nil {
-		return 0
+		return 0, "Recover does not resolve"
 	}
-	// Recover and the in-module helpers it calls synchronously (not SendEvent)
-	fns := []*ssa.Function{rec}
-	for _, ef := range w.Summary(rec).Effects {
-		if f := ef.Info.Static; f != nil && f != se && w.InModule(f) && f.Blocks != nil && ef.In == rec {
-			fns = append(fns, f)
+	terminal := map[string]bool{}
+	for _, t := range ts {
+		for _, s := range t.terminals() {
+			terminal[s] = true
 		}
 	}
-	// canSucceed: the trailing error value v (at the end of blk) can be nil:
-	// 1 yes, -1 no (a sentinel / freshly made error), 0 unknown
-	var canSucceed func(v ssa.Value, depth int) int
-	fnCanSucceed := func(g *ssa.Function, depth int) int {
-		res := g.Signature.Results()
-		if g.Blocks == nil || res.Len() == 0 || !an.IsErrorType(res.At(res.Len()-1).Type()) {
-			return 0
-		}
-		worst := -1
-		for _, p := range c16ResultPoints(g, res.Len()-1) {
-			switch canSucceed(p.Val, depth) {
-			case 1:
-				return 1
-			case 0:
-				worst = 0
+	extra := func(f an.Fact) int {
+		if f.Rel == "true" || f.Rel == "false" {
+			if strings.Contains(f.Atom, "SwapStateMachine.States[") && strings.HasSuffix(f.Atom, "#1") {
+				return c16B2i(f.Rel == "true") // the entry is present in the table
+			}
+			if strings.HasSuffix(f.Atom, "State.FailOnrecover") {
+				return c16B2i((f.Rel == "true") == failOnRecover)
 			}
 		}
-		return worst
-	}
-	canSucceed = func(v ssa.Value, depth int) int {
-		if an.IsNilConst(v) {
-			return 1
+		if f.NonNum && (f.Rel == "==" || f.Rel == "!=") && an.EqIs(f, f.Rel, "State.Action", "nil") {
+			return c16B2i(f.Rel == "==") // the entry has no action
 		}
-		var call *ssa.Call
-		switch x := v.(type) {
-		case *ssa.MakeInterface:
-			return -1
-		case *ssa.UnOp:
-			if _, isGlobal := x.X.(*ssa.Global); isGlobal && x.Op == token.MUL {
-				return -1 // a package-level sentinel such as ErrFsmConfig
-			}
-			return 0
-		case *ssa.Phi:
-			worst := -1
-			for _, e := range x.Edges {
-				switch canSucceed(e, depth) {
-				case 1:
-					return 1
-				case 0:
-					worst = 0
+		return -1
+	}
+	makesTerminal := func(b *ssa.BasicBlock) bool {
+		for _, in := range b.Instrs {
+			switch x := in.(type) {
+			case ssa.CallInstruction:
+				for _, a := range x.Common().Args {
+					if v, ok := an.ConstString(a); ok && terminal[v] {
+						return true
+					}
+				}
+			case *ssa.Store:
+				if v, ok := an.ConstString(x.Val); ok && terminal[v] {
+					return true
 				}
 			}
-			return worst
+		}
+		return false
+	}
+	var evalFn func(fn *ssa.Function, depth int) (int, string)
+	evalFn = func(fn *ssa.Function, depth int) (int, string) {
+		env := &c16Env{w: w, cur: st, extra: extra}
+		tr := env.run(fn, makesTerminal)
+		name := w.FuncName(fn)
+		last := "unconditionally"
+		if n := len(tr.decided); n > 0 {
+			last = "because `" + tr.decided[n-1].String() + "` holds for that record (" + w.Pos(tr.decided[n-1].Edge.From.Instrs[len(tr.decided[n-1].Edge.From.Instrs)-1].Pos()) + ")"
+		}
+		switch {
+		case tr.stopped:
+			return 1, ""
+		case tr.stuck != nil:
+			tf, _ := w.FactsOfIf(tr.stuck)
+			return 0, "the condition `" + tf.String() + "` in " + name + " (" + w.Pos(tr.stuck.Pos()) + ") cannot be evaluated for such a record"
+		case tr.ret == nil:
+			return 0, "the walk through " + name + " does not end in a return (loop or panic)"
+		}
+		res := fn.Signature.Results()
+		if res.Len() < 2 || !an.IsErrorType(res.At(res.Len()-1).Type()) {
+			return 0, name + " does not return (done, error)"
+		}
+		errv := tr.ret.Results[res.Len()-1]
+		if phi, ok := errv.(*ssa.Phi); ok && phi.Block() == tr.ret.Block() && len(tr.blocks) > 1 {
+			prev := tr.blocks[len(tr.blocks)-2]
+			for i, pb := range phi.Block().Preds {
+				if pb == prev {
+					errv = phi.Edges[i]
+				}
+			}
+		}
+		at := w.Pos(tr.ret.Pos())
+		if an.IsNilConst(errv) {
+			switch env.boolValue(tr.ret.Results[0], tr) {
+			case 1:
+				return 1, ""
+			case 0:
+				return -1, name + " returns (false, nil) at " + at + " " + last + ": nothing finishes the swap"
+			}
+			return 0, "the done result returned at " + at + " cannot be evaluated"
+		}
+		var call *ssa.Call
+		switch x := errv.(type) {
+		case *ssa.MakeInterface:
+			return -1, name + " returns an error at " + at + " " + last
+		case *ssa.UnOp:
+			if g, isGlobal := x.X.(*ssa.Global); isGlobal && x.Op == token.MUL {
+				return -1, name + " returns " + g.Name() + " at " + at + " " + last
+			}
 		case *ssa.Extract:
 			call, _ = x.Tuple.(*ssa.Call)
 		case *ssa.Call:
 			call = x
 		}
-		if call == nil {
-			return 0
+		if call != nil {
+			ci := w.Info(call)
+			if ci.Name == "func:errors.New" || ci.Name == "func:fmt.Errorf" {
+				return -1, name + " returns a new error at " + at + " " + last
+			}
+			if g := ci.Static; g != nil {
+				if g == se {
+					return 1, "" // an event is sent for the record
+				}
+				if w.InModule(g) && g.Blocks != nil && depth < 3 {
+					return evalFn(g, depth+1)
+				}
+			}
 		}
-		ci := w.Info(call)
-		if ci.Name == "func:errors.New" || ci.Name == "func:fmt.Errorf" {
-			return -1
-		}
-		g := ci.Static
-		if g == nil {
-			return 0
-		}
-		if g == se {
-			return 1 // the result of SendEvent(...)
-		}
-		if w.InModule(g) && depth < 3 {
-			return fnCanSucceed(g, depth+1)
-		}
-		return 0
+		return 0, "the error returned at " + at + " is of unknown origin"
 	}
-	found, unknown := false, false
-	for _, fn := range fns {
-		for _, f := range w.Facts(fn) {
-			if !(f.NonNum && f.Rel == "==" && an.EqIs(f, "==", "State.Action", "nil")) &&
-				!(f.NonNum && f.Rel == "==" && an.EqIs(f, "==", "SwapStateMachine.Current", `""`)) {
+	return evalFn(rec, 0)
+}
+
+// ---- R1: confirmation deadline per chain and watcher implementation ---------------------------------
+
+// c16WatchersByChain maps each chain constant to the AddWaitForConfirmationTx
+// methods of the TxWatcher implementations that the program wires in for that
+// chain: a function of package swap returns the services field F as TxWatcher
+// under the fact `asset == "<chain>"`, and the values stored into F are traced to
+// concrete types through constructor parameters and their callers. resolved is
+// false when some value could not be traced (then every implementation is listed).
+func c16WatchersByChain(w *an.World) (map[string][]*ssa.Function, bool) {
+	iface := w.Named("swap", "TxWatcher")
+	if iface == nil {
+		return nil, false
+	}
+	fieldChain := map[string]string{} // "SwapServices.bitcoinTxWatcher" -> "btc"
+	for _, fn := range prodFuncs(w) {
+		if w.FnRel(fn) != "swap" || fn.Blocks == nil {
+			continue
+		}
+		res := fn.Signature.Results()
+		for i := 0; i < res.Len(); i++ {
+			if n, ok := res.At(i).Type().(*types.Named); !ok || n.Obj() != iface.Obj() {
 				continue
 			}
-			found = true
-			reach := an.ReachBlocks([]*ssa.BasicBlock{f.Edge.To()}, nil, nil)
-			res := fn.Signature.Results()
-			if res.Len() < 2 || !an.IsErrorType(res.At(res.Len()-1).Type()) {
-				continue
-			}
-			for _, p := range c16ResultPoints(fn, res.Len()-1) {
-				if !reach[p.Blk] {
+			for _, p := range c16ResultPoints(fn, i) {
+				ld, ok := p.Val.(*ssa.UnOp)
+				if !ok || ld.Op != token.MUL {
 					continue
 				}
-				switch canSucceed(p.Val, 0) {
-				case 1:
-					return 1
-				case 0:
-					unknown = true
+				fa, ok := ld.X.(*ssa.FieldAddr)
+				if !ok {
+					continue
+				}
+				key := an.FieldName(fa.X.Type(), fa.Field)
+				for _, f := range p.facts(w) {
+					if !f.NonNum || f.Rel != "==" {
+						continue
+					}
+					for _, pr := range [][2]string{{f.L, f.R}, {f.R, f.L}} {
+						if cv, err := strconv.Unquote(pr[0]); err == nil && cv != "" && strings.HasPrefix(pr[1], "param#") {
+							fieldChain[key] = cv
+						}
+					}
 				}
 			}
 		}
 	}
-	if !found || unknown {
-		return 0
+	resolved := len(fieldChain) > 0
+	out := map[string][]*ssa.Function{}
+	add := func(chain string, fn *ssa.Function) {
+		for _, x := range out[chain] {
+			if x == fn {
+				return
+			}
+		}
+		out[chain] = append(out[chain], fn)
+	}
+	var concrete func(v ssa.Value, depth int, seen map[ssa.Value]bool, emit func(types.Type))
+	concrete = func(v ssa.Value, depth int, seen map[ssa.Value]bool, emit func(types.Type)) {
+		if v == nil || seen[v] {
+			return
+		}
+		seen[v] = true
+		switch x := v.(type) {
+		case *ssa.MakeInterface:
+			emit(x.X.Type())
+		case *ssa.Const:
+			// nil: chain disabled
+		case *ssa.ChangeInterface:
+			concrete(x.X, depth, seen, emit)
+		case *ssa.Phi:
+			for _, e := range x.Edges {
+				concrete(e, depth, seen, emit)
+			}
+		case *ssa.UnOp:
+			al, ok := x.X.(*ssa.Alloc)
+			if !ok || x.Op != token.MUL || al.Referrers() == nil {
+				resolved = false
+				return
+			}
+			for _, r := range *al.Referrers() {
+				if st, ok := r.(*ssa.Store); ok && st.Addr == al {
+					concrete(st.Val, depth, seen, emit)
+				}
+			}
+		case *ssa.Parameter:
+			fn := x.Parent()
+			idx := -1
+			for i, p := range fn.Params {
+				if p == x {
+					idx = i
+				}
+			}
+			found := false
+			if depth < 3 {
+				for _, g := range prodFuncs(w) {
+					for _, gc := range an.Calls(g) {
+						if gc.Common().StaticCallee() == fn && idx >= 0 && idx < len(gc.Common().Args) {
+							found = true
+							concrete(gc.Common().Args[idx], depth+1, seen, emit)
+						}
+					}
+				}
+			}
+			if !found {
+				resolved = false
+			}
+		default:
+			resolved = false
+		}
+	}
+	for key, chain := range fieldChain {
+		ws := w.FieldWriters(key)
+		if len(ws) == 0 {
+			resolved = false
+		}
+		for _, st := range ws {
+			if an.IsTestSupport(w.FnRel(st.Parent())) || isDummy(w, st.Parent()) {
+				continue
+			}
+			concrete(st.Val, 0, map[ssa.Value]bool{}, func(t types.Type) {
+				n := an.NamedOf(t)
+				if n == nil {
+					resolved = false
+					return
+				}
+				m := w.Method(n, "AddWaitForConfirmationTx")
+				if m == nil || m.Blocks == nil {
+					resolved = false
+					return
+				}
+				if !isDummy(w, m) {
+					add(chain, m)
+				}
+			})
+		}
+	}
+	if !resolved {
+		all := implementers(w, "swap", "TxWatcher", "AddWaitForConfirmationTx")
+		chains := map[string]bool{}
+		for _, c := range fieldChain {
+			chains[c] = true
+		}
+		for c := range chains {
+			for _, m := range all {
+				if !isDummy(w, m) {
+					add(c, m)
+				}
+			}
+		}
+	}
+	for c := range out {
+		fs := out[c]
+		sort.Slice(fs, func(i, j int) bool { return w.FuncName(fs[i]) < w.FuncName(fs[j]) })
+	}
+	return out, resolved
+}
+
+// c16WindowParam: index (among the interface method's parameters) of the
+// deadline / window parameter of TxWatcher.AddWaitForConfirmationTx.
+func c16WindowParam(w *an.World) int {
+	n := w.Named("swap", "TxWatcher")
+	if n == nil {
+		return -1
+	}
+	it, ok := n.Underlying().(*types.Interface)
+	if !ok {
+		return -1
+	}
+	for i := 0; i < it.NumMethods(); i++ {
+		if it.Method(i).Name() != "AddWaitForConfirmationTx" {
+			continue
+		}
+		ps := it.Method(i).Type().(*types.Signature).Params()
+		for k := 0; k < ps.Len(); k++ {
+			nm := strings.ToLower(ps.At(k).Name())
+			if strings.Contains(nm, "window") || strings.Contains(nm, "deadline") {
+				return k
+			}
+		}
 	}
 	return -1
+}
+
+// c16ParamUsed: the parameter is read somewhere in the method.
+func c16ParamUsed(fn *ssa.Function, ifaceIdx int) bool {
+	k := ifaceIdx
+	if fn.Signature.Recv() != nil {
+		k++
+	}
+	if k < 0 || k >= len(fn.Params) {
+		return false
+	}
+	refs := fn.Params[k].Referrers()
+	if refs == nil {
+		return false
+	}
+	for _, r := range *refs {
+		if _, dbg := r.(*ssa.DebugRef); !dbg {
+			return true
+		}
+	}
+	return false
+}
+
+// c16ChainCompat: can a point reached under these facts belong to a swap on the
+// given chain? 1 yes, 0 no (a `GetChain() == other` / `GetChain() != chain` fact),
+// -1 a chain-related condition could not be interpreted.
+func c16ChainCompat(w *an.World, fs []an.Fact, chain string) int {
+	res := 1
+	for _, f := range fs {
+		if f.NonNum && (f.Rel == "==" || f.Rel == "!=") {
+			for _, pr := range [][2]string{{f.L, f.R}, {f.R, f.L}} {
+				if !strings.Contains(pr[0], ").GetChain") {
+					continue
+				}
+				cv, err := strconv.Unquote(pr[1])
+				if err != nil {
+					res = -1
+					continue
+				}
+				if (f.Rel == "==") != (cv == chain) {
+					return 0
+				}
+			}
+			continue
+		}
+		if f.Rel == "true" || f.Rel == "false" {
+			// a predicate helper that looks at the chain (isLiquidSwap() and the like)
+			if call, ok := f.Cond.(*ssa.Call); ok {
+				if g := w.Info(call).Static; g != nil && w.InModule(g) && g.Blocks != nil {
+					if strings.HasSuffix(w.FuncName(g), ").GetChain") {
+						res = -1
+					}
+					for _, ef := range w.Summary(g).Effects {
+						if strings.HasSuffix(ef.Name, ").GetChain") {
+							res = -1
+						}
+					}
+				}
+			}
+		}
+	}
+	return res
+}
+
+func c16ConfirmationDeadline(c *an.Check, t *TI, s string) {
+	w := c.W
+	e := t.T.States[s]
+	ss := t.Sum[s]
+	byChain, resolved := c16WatchersByChain(w)
+	win := c16WindowParam(w)
+	if len(byChain) == 0 || win < 0 {
+		c.Unknown("C16.R1", t.key(s)+" confirmation-deadline", t.pos(c, s), "cannot relate chains to TxWatcher implementations (no function of package swap returns a TxWatcher field under a chain test, or AddWaitForConfirmationTx has no window/deadline parameter)")
+		return
+	}
+	var chains []string
+	for ch := range byChain {
+		chains = append(chains, ch)
+	}
+	sort.Strings(chains)
+	for _, chain := range chains {
+		cons := t.key(s) + " confirmation-deadline " + chain
+		// (a) the action itself, re-run by Recover, fails on a passed height for this chain
+		action, uncertain := "", false
+		for ev := range ss.Events {
+			if ev == evNoOp {
+				continue
+			}
+			if _, ok := e.Events[ev]; !ok {
+				continue
+			}
+			for _, fn := range ss.Execs {
+				for _, fs := range c16HeightPoints(w, fn, ev, nil, 0, map[*ssa.Function]bool{}, nil) {
+					switch c16ChainCompat(w, fs, chain) {
+					case 1:
+						action = "the action returns a height-dependent " + ev + " on the " + chain + " side"
+					case -1:
+						uncertain = true
+					}
+				}
+			}
+		}
+		if action != "" {
+			c.OK("C16.R1", cons, t.pos(c, s), action+" (re-run by Recover)")
+			continue
+		}
+		// (b) every watcher that serves the chain enforces the window it is given
+		var ignoring, using []string
+		for _, m := range byChain[chain] {
+			if c16ParamUsed(m, win) {
+				using = append(using, w.FuncName(m))
+			} else {
+				ignoring = append(ignoring, w.FuncName(m)+" ("+w.Pos(m.Pos())+")")
+			}
+		}
+		switch {
+		case len(ignoring) == 0 && len(using) > 0:
+			c.OK("C16.R1", cons, t.pos(c, s), "every watcher wired in for "+chain+" reads the window it is given: "+strings.Join(using, ", "))
+		case len(ignoring) == 0:
+			c.Unknown("C16.R1", cons, t.pos(c, s), "no TxWatcher implementation found for "+chain)
+		case uncertain || !resolved:
+			c.Unknown("C16.R1", cons, t.pos(c, s), "no height-driven failure of the action was recognised for "+chain+" (a chain condition could not be interpreted, or the watcher wiring could not be traced) and "+strings.Join(ignoring, ", ")+" ignores its window parameter")
+		default:
+			c.Bad("C16.R1", cons, t.pos(c, s), fmt.Sprintf("waiting state (action %v) on chain %s with watcher %s: the watcher ignores the deadline/window parameter of AddWaitForConfirmationTx (it only calls back on confirmation) and the action, re-run by Recover, has no `height >= start + K -> failure` test on the %s side: an opening transaction that never confirms keeps the swap and its channel here across every restart", e.ActionNames(), chain, strings.Join(ignoring, ", "), chain))
+		}
+	}
+}
+
+// ---- R5: callbacks deliver their event ------------------------------------------------------------------
+
+// c16Skip is a branch edge of a callback on which delivery is abandoned: its
+// source block can still reach a SendEvent, its target cannot.
+type c16Skip struct {
+	fn       *ssa.Function
+	edge     an.Edge
+	fact     an.Fact
+	kind     string // not-found | input | dispatch | state | unknown
+	events   []string
+	excluded []string // kind state: accepting (table/state) pairs that take the skip
+}
+
+type c16Delivery struct {
+	events map[string]bool
+	skips  []c16Skip
+	none   bool // no SendEvent reachable at all
+}
+
+// c16Accepting lists the "table/state" keys that accept one of the events (and
+// pass the optional filter), with the state's value.
+func c16Accepting(ts []*TI, events []string, filter func(t *TI, s string) bool) map[string]string {
+	out := map[string]string{}
+	for _, t := range ts {
+		for _, s := range t.T.Order {
+			for _, ev := range events {
+				if _, ok := t.T.States[s].Events[ev]; ok && (filter == nil || filter(t, s)) {
+					out[t.key(s)+" (accepts "+ev+")"] = s
+				}
+			}
+		}
+	}
+	return out
+}
+
+// c16ErrEdge: the edge carrying fact f is taken only when the error result of
+// call k is non-nil.
+func c16ErrEdge(w *an.World, f an.Fact, k *ssa.Call) bool {
+	idx := an.ErrResultIndex(k)
+	if idx < 0 {
+		return false
+	}
+	_, fail := an.OkEdges(k)
+	for _, e := range fail {
+		if e == f.Edge {
+			return true
+		}
+	}
+	isErr := func(v ssa.Value) bool {
+		if v == nil {
+			return false
+		}
+		for _, l := range w.Sources(v, an.FlowOpts{}).Leaves {
+			if l.Kind == "call" && l.Call == k && l.Idx == idx {
+				return true
+			}
+		}
+		return false
+	}
+	// err == <package-level sentinel>
+	if f.NonNum && f.Rel == "==" {
+		if (isErr(f.LV) && strings.HasPrefix(w.Term(f.RV), "global:")) || (isErr(f.RV) && strings.HasPrefix(w.Term(f.LV), "global:")) {
+			return true
+		}
+		if bo, ok := f.Cond.(*ssa.BinOp); ok {
+			if (isErr(bo.X) && strings.HasPrefix(w.Term(bo.Y), "global:")) || (isErr(bo.Y) && strings.HasPrefix(w.Term(bo.X), "global:")) {
+				return true
+			}
+		}
+	}
+	// errors.Is(err, sentinel)
+	if f.Rel == "true" {
+		if call, ok := f.Cond.(*ssa.Call); ok && w.Info(call).Name == "func:errors.Is" && len(call.Call.Args) == 2 && isErr(call.Call.Args[0]) {
+			return true
+		}
+	}
+	return false
+}
+
+// c16InputOnly: v is computed from constants, package-level values and the
+// callback's own parameters only (parameters of inner frames are bound through
+// the call stack).
+func c16InputOnly(w *an.World, v ssa.Value, stack []ssa.CallInstruction, depth int) (pure, hasParam bool) {
+	if v == nil {
+		return true, false
+	}
+	src := w.Sources(v, an.FlowOpts{})
+	if len(src.Leaves) == 0 {
+		return false, false
+	}
+	pure = true
+	for _, l := range src.Leaves {
+		switch l.Kind {
+		case "const", "zero", "global":
+		case "param":
+			p, ok := l.Val.(*ssa.Parameter)
+			if !ok {
+				return false, false
+			}
+			if len(stack) == 0 || stack[0].Common().StaticCallee() != p.Parent() {
+				hasParam = true
+				continue
+			}
+			bound := false
+			for i, q := range p.Parent().Params {
+				if q == p && i < len(stack[0].Common().Args) && depth < 4 {
+					bound = true
+					pp, hp := c16InputOnly(w, stack[0].Common().Args[i], stack[1:], depth+1)
+					if !pp {
+						return false, false
+					}
+					hasParam = hasParam || hp
+				}
+			}
+			if !bound {
+				return false, false
+			}
+		default:
+			return false, false
+		}
+	}
+	return pure, hasParam
+}
+
+func c16IsSwapMachine(t types.Type) bool {
+	n := an.NamedOf(t)
+	return n != nil && n.Obj().Name() == "SwapStateMachine"
+}
+
+// c16AnalyseDelivery finds the branch edges of fn (and of the in-module callees
+// through which it sends) on which an event is not delivered although the swap
+// was found, and classifies their conditions.
+func c16AnalyseDelivery(c *an.Check, ts []*TI, fn *ssa.Function, stack []ssa.CallInstruction, filter func(t *TI, s string) bool, seen map[*ssa.Function]bool) *c16Delivery {
+	w := c.W
+	out := &c16Delivery{events: map[string]bool{}}
+	se := w.Func("swap", "(*SwapStateMachine).SendEvent")
+	if fn == nil || fn.Blocks == nil || se == nil || seen[fn] || len(stack) > 3 {
+		out.none = true
+		return out
+	}
+	seen[fn] = true
+	defer delete(seen, fn)
+	reachesSend := func(g *ssa.Function) bool {
+		for _, ef := range w.Summary(g).Effects {
+			if ef.Info.Static == se && !strings.HasPrefix(ef.Name, "go:") {
+				return true
+			}
+		}
+		return false
+	}
+	var resolveEvents func(v ssa.Value, st []ssa.CallInstruction) []string
+	resolveEvents = func(v ssa.Value, st []ssa.CallInstruction) []string {
+		if p, ok := v.(*ssa.Parameter); ok && len(st) > 0 && st[0].Common().StaticCallee() == p.Parent() {
+			for i, q := range p.Parent().Params {
+				if q == p && i < len(st[0].Common().Args) {
+					return resolveEvents(st[0].Common().Args[i], st[1:])
+				}
+			}
+		}
+		return eventValues(w, v)
+	}
+	// delivery points and the events they deliver
+	dEvents := map[ssa.Instruction][]string{}
+	var lookups []*ssa.Call
+	for _, call := range an.Calls(fn) {
+		if _, isGo := call.(*ssa.Go); isGo {
+			continue
+		}
+		g := call.Common().StaticCallee()
+		if g == nil {
+			continue
+		}
+		if g == se {
+			if args := call.Common().Args; len(args) >= 2 {
+				dEvents[call] = resolveEvents(args[1], stack)
+			}
+			continue
+		}
+		if cv, ok := call.(*ssa.Call); ok && an.ErrResultIndex(cv) >= 0 {
+			res := g.Signature.Results()
+			for i := 0; i < res.Len(); i++ {
+				if c16IsSwapMachine(res.At(i).Type()) {
+					lookups = append(lookups, cv)
+				}
+			}
+		}
+		if w.InModule(g) && g.Blocks != nil && reachesSend(g) {
+			sub := c16AnalyseDelivery(c, ts, g, append([]ssa.CallInstruction{call}, stack...), filter, seen)
+			if sub.none {
+				continue
+			}
+			var evs []string
+			for ev := range sub.events {
+				evs = append(evs, ev)
+			}
+			sort.Strings(evs)
+			dEvents[call] = evs
+			for _, sk := range sub.skips {
+				if sk.kind == "unknown" || (sk.kind == "state" && len(sk.excluded) > 0) {
+					out.skips = append(out.skips, sk)
+				}
+			}
+		}
+	}
+	if len(dEvents) == 0 {
+		out.none = true
+		return out
+	}
+	for _, evs := range dEvents {
+		for _, ev := range evs {
+			out.events[ev] = true
+		}
+	}
+	dBlock := map[*ssa.BasicBlock]bool{}
+	for in := range dEvents {
+		dBlock[in.Block()] = true
+	}
+	// live: a delivery point is still reachable from the start of the block
+	live := map[*ssa.BasicBlock]bool{}
+	for _, b := range fn.Blocks {
+		for rb := range an.ReachBlocks([]*ssa.BasicBlock{b}, nil, nil) {
+			if dBlock[rb] {
+				live[b] = true
+				break
+			}
+		}
+	}
+	if !live[fn.Blocks[0]] {
+		out.none = true
+		return out
+	}
+	// pre-delivery region: reached from the entry without passing a delivery block
+	pre := an.ReachBlocks([]*ssa.BasicBlock{fn.Blocks[0]}, nil, dBlock)
+	for _, b := range fn.Blocks {
+		if !pre[b] || dBlock[b] || len(b.Instrs) == 0 {
+			continue
+		}
+		ifi, ok := b.Instrs[len(b.Instrs)-1].(*ssa.If)
+		if !ok {
+			continue
+		}
+		tf, ff := w.FactsOfIf(ifi)
+		for i, f := range []an.Fact{tf, ff} {
+			if live[b.Succs[i]] {
+				continue
+			}
+			sk := c16Skip{fn: fn, edge: an.Edge{From: b, Idx: i}, fact: f, kind: "unknown"}
+			// events that could still have been delivered from here
+			evSet := map[string]bool{}
+			reach := an.ReachBlocks([]*ssa.BasicBlock{b}, nil, nil)
+			for in, evs := range dEvents {
+				if reach[in.Block()] {
+					for _, ev := range evs {
+						evSet[ev] = true
+					}
+				}
+			}
+			for ev := range evSet {
+				sk.events = append(sk.events, ev)
+			}
+			sort.Strings(sk.events)
+			c16ClassifySkip(c, ts, &sk, lookups, stack, filter)
+			out.skips = append(out.skips, sk)
+		}
+	}
+	return out
+}
+
+func c16ClassifySkip(c *an.Check, ts []*TI, sk *c16Skip, lookups []*ssa.Call, stack []ssa.CallInstruction, filter func(t *TI, s string) bool) {
+	w := c.W
+	f := sk.fact
+	// the swap was not found
+	for _, l := range lookups {
+		if c16ErrEdge(w, f, l) {
+			sk.kind = "not-found"
+			return
+		}
+	}
+	// an argument of the callback could not be decoded
+	for _, call := range an.Calls(sk.fn) {
+		k, ok := call.(*ssa.Call)
+		if !ok || an.ErrResultIndex(k) < 0 || !c16ErrEdge(w, f, k) {
+			continue
+		}
+		pure := true
+		for _, a := range k.Common().Args {
+			if p, _ := c16InputOnly(w, a, stack, 0); !p {
+				pure = false
+			}
+		}
+		if k.Common().IsInvoke() {
+			pure = false
+		}
+		if pure {
+			sk.kind = "input"
+			return
+		}
+	}
+	// dispatch on the callback's own arguments (which notification is this?)
+	ops := []ssa.Value{}
+	switch cv := f.Cond.(type) {
+	case *ssa.BinOp:
+		ops = append(ops, cv.X, cv.Y)
+	case *ssa.UnOp:
+		ops = append(ops, cv.X)
+	case *ssa.Call:
+		// a predicate call: not a plain dispatch
+	default:
+		if f.Cond != nil {
+			ops = append(ops, f.Cond)
+		}
+	}
+	if len(ops) > 0 {
+		allPure, anyParam := true, false
+		for _, op := range ops {
+			p, hp := c16InputOnly(w, op, stack, 0)
+			if !p {
+				allPure = false
+			}
+			anyParam = anyParam || hp
+		}
+		if allPure && anyParam {
+			sk.kind = "dispatch"
+			return
+		}
+	}
+	// a test of the swap's current state: evaluate it for every accepting state
+	acc := c16Accepting(ts, sk.events, filter)
+	if len(acc) == 0 {
+		return
+	}
+	dom := w.FactsDominatingBlock(sk.edge.From)
+	evaluable := true
+	var excluded []string
+	for key, st := range acc {
+		env := &c16Env{w: w, cur: st}
+		v := env.evalFact(f)
+		if v < 0 {
+			evaluable = false
+			break
+		}
+		if v == 0 {
+			continue
+		}
+		// does a record in this state get here at all?
+		gets := true
+		for _, df := range dom {
+			if env.evalFact(df) == 0 {
+				gets = false
+			}
+		}
+		if gets {
+			excluded = append(excluded, key)
+		}
+	}
+	if !evaluable {
+		return
+	}
+	sort.Strings(excluded)
+	sk.kind = "state"
+	sk.excluded = excluded
+}
+
+// c16ReportDelivery turns the analysis of one callback into an obligation.
+func c16ReportDelivery(c *an.Check, rule string, root *ssa.Function, d *c16Delivery) {
+	w := c.W
+	var evs []string
+	for ev := range d.events {
+		evs = append(evs, ev)
+	}
+	sort.Strings(evs)
+	cons := w.FuncName(root) + " delivers " + strings.Join(evs, ",")
+	pos := w.Pos(root.Pos())
+	if d.none {
+		c.Unknown(rule, w.FuncName(root)+" delivers", pos, "no SendEvent is reachable from the entry of this callback through static in-module calls")
+		return
+	}
+	var bad, unk, ok []string
+	for _, sk := range d.skips {
+		at := w.FuncName(sk.fn)
+		if sk.fact.Cond != nil && sk.fact.Cond.Pos().IsValid() {
+			at += " " + w.Pos(sk.fact.Cond.Pos())
+		}
+		switch {
+		case sk.kind == "state" && len(sk.excluded) > 0:
+			bad = append(bad, "the skip on `"+sk.fact.String()+"` ("+at+") is taken in "+strings.Join(sk.excluded, ", ")+": the event is dropped although the tables accept it there")
+		case sk.kind == "unknown":
+			unk = append(unk, "delivery is skipped on `"+sk.fact.String()+"` ("+at+"), a condition that is neither swap-not-found, an undecodable argument, a dispatch on the callback's arguments, nor a test of the current state that could be evaluated")
+		default:
+			ok = append(ok, sk.kind+": "+sk.fact.String())
+		}
+	}
+	switch {
+	case len(bad) > 0:
+		c.Bad(rule, cons, pos, strings.Join(bad, "; "))
+	case len(unk) > 0:
+		c.Unknown(rule, cons, pos, strings.Join(unk, "; "))
+	default:
+		detail := "every path on which the swap was found reaches SendEvent"
+		if len(ok) > 0 {
+			detail += " (skips: " + strings.Join(ok, "; ") + ")"
+		}
+		c.OK(rule, cons, pos, detail)
+	}
+}
+
+// c16TimeoutCallbacks finds the function that the timeout service runs when a
+// timer fires: the func value that a (non-dummy) implementation of
+// TimeOutService.addNewTimeOut hands on, traced through the service's factory
+// field to the closure the factory returns. Falls back to the functions that
+// send Event_OnTimeout.
+func c16TimeoutCallbacks(c *an.Check, srcs []EventSource) []*ssa.Function {
+	w := c.W
+	var out []*ssa.Function
+	seenF := map[*ssa.Function]bool{}
+	add := func(f *ssa.Function) {
+		if f != nil && f.Blocks != nil && !seenF[f] {
+			seenF[f] = true
+			out = append(out, f)
+		}
+	}
+	// function values a func-typed value may denote, through parameters and callers
+	var fvals func(v ssa.Value, depth int) []*ssa.Function
+	fvals = func(v ssa.Value, depth int) []*ssa.Function {
+		if fs := funcValues(v); len(fs) > 0 || depth > 3 {
+			return fs
+		}
+		var res []*ssa.Function
+		if p, ok := v.(*ssa.Parameter); ok {
+			fn := p.Parent()
+			for i, q := range fn.Params {
+				if q != p {
+					continue
+				}
+				for _, g := range prodFuncs(w) {
+					for _, gc := range an.Calls(g) {
+						if gc.Common().StaticCallee() == fn && i < len(gc.Common().Args) {
+							res = append(res, fvals(gc.Common().Args[i], depth+1)...)
+						}
+					}
+				}
+			}
+		}
+		return res
+	}
+	for _, impl := range implementers(w, "swap", "TimeOutService", "addNewTimeOut") {
+		if isDummy(w, impl) {
+			continue
+		}
+		for _, call := range an.Calls(impl) {
+			for _, a := range call.Common().Args {
+				if _, isFunc := a.Type().Underlying().(*types.Signature); !isFunc {
+					continue
+				}
+				for _, f := range funcValues(a) {
+					add(f)
+				}
+				// the result of calling a factory held in a field
+				fc, ok := a.(*ssa.Call)
+				if !ok {
+					continue
+				}
+				var factories []*ssa.Function
+				if g := fc.Common().StaticCallee(); g != nil {
+					factories = append(factories, g)
+				} else if ld, ok := fc.Common().Value.(*ssa.UnOp); ok && ld.Op == token.MUL {
+					if fa, ok := ld.X.(*ssa.FieldAddr); ok {
+						for _, st := range w.FieldWriters(an.FieldName(fa.X.Type(), fa.Field)) {
+							if an.IsTestSupport(w.FnRel(st.Parent())) {
+								continue
+							}
+							factories = append(factories, fvals(st.Val, 0)...)
+						}
+					}
+				}
+				for _, fac := range factories {
+					for _, r := range an.Returns(fac) {
+						for _, rv := range r.Results {
+							for _, f := range funcValues(rv) {
+								add(f)
+							}
+						}
+					}
+				}
+			}
+		}
+	}
+	// keep those that really send the timeout event
+	var sending []*ssa.Function
+	for _, f := range out {
+		if eventsSentFrom(c, f, srcs)[evTimeout] {
+			sending = append(sending, f)
+		}
+	}
+	if len(sending) > 0 {
+		return sending
+	}
+	fsmOwn := map[*ssa.Function]bool{w.Func("swap", "(*SwapStateMachine).SendEvent"): true, w.Func("swap", "(*SwapStateMachine).Recover"): true}
+	seenF = map[*ssa.Function]bool{}
+	out = nil
+	for _, s := range srcs {
+		if s.Event == evTimeout && !fsmOwn[s.Fn] {
+			add(s.Fn)
+		}
+	}
+	return out
 }
